@@ -37,14 +37,13 @@ theorem decTimestamp_enc (t s : Nat) (ht : t < 2 ^ 64) (hs : s < 2 ^ 64) (rest :
 
 theorem mapInsert_fresh (m : EidMap) (k : Eid) (v : Nat) (h : k ∉ m.map (·.1)) :
     mapInsert m k v = m ++ [(k, v)] := by
-  unfold mapInsert
-  have : m.any (fun p => p.1 == k) = false := by
-    rw [List.any_eq_false]
-    intro p hp heq
-    apply h
-    rw [List.mem_map]
-    exact ⟨p, hp, by simpa using heq⟩
-  simp [this]
+  induction m with
+  | nil => rfl
+  | cons p ps ih =>
+    obtain ⟨k', v'⟩ := p
+    simp only [List.map_cons, List.mem_cons, not_or] at h
+    have hne : ¬ (k' = k) := fun e => h.1 e.symm
+    simp [mapInsert, hne, ih h.2]
 
 theorem decPairs_encPairs (encV : Nat → Bytes) (decV : Bytes → Except Err (Nat × Bytes))
     (hV : ∀ n rest, n < 2 ^ 64 → decV (encV n ++ rest) = .ok (n, rest))
